@@ -286,7 +286,7 @@ class FracMonitor:
                 frac, wts = self.archived[pn]
                 # columns of the row are ensembles 0..n-2
                 want = frac[: self.n - 1]
-                if len(fr) != self.n - 1 or np.max(np.abs(fr - want)) > 1e-12:
+                if len(fr) != self.n - 1 or not (np.max(np.abs(fr - want)) <= 1e-12):
                     rig.violate("row-frac-mismatch",
                                 f"row of path {pn} {fr.tolist()} != "
                                 f"accumulated {want.tolist()}")
@@ -294,8 +294,8 @@ class FracMonitor:
                 full = ([wts[0]] + [0.0] * (self.n - 2)) if len(wts) == 1 \
                     else [0.0] + list(wts[:-1])
                 for j in range(min(len(ws), len(full))):
-                    if fr[j] != 0 and abs(ws[j] - full[j]) > 1e-9 * max(
-                            1, abs(full[j])):
+                    if fr[j] != 0 and not (abs(ws[j] - full[j]) <= 1e-9 * max(
+                            1, abs(full[j]))):
                         rig.violate("row-weight-mismatch",
                                     f"row of path {pn}: weight column {j} "
                                     f"{ws[j]} != path weight {full[j]}")
@@ -356,8 +356,8 @@ class FracMonitor:
                         self.before.get(pn, np.zeros(n, dtype=np.longdouble))
                     want = np.zeros(n)
                     want[idle] = [float(x) for x in ref[a]]
-                    if np.max(np.abs(np.asarray(delta, dtype=float) - want)) \
-                            > 1e-9:
+                    if not (np.max(np.abs(np.asarray(delta, dtype=float) -
+                                          want)) <= 1e-9):
                         rig.violate(
                             "frac-delta-not-P-row",
                             f"path {pn} gained {[float(x) for x in delta]} "
@@ -371,7 +371,7 @@ class FracMonitor:
                     rig.violate("frac-to-dead-path", f"path {pn}")
         for j in range(n):
             want = 0 if (locks[j] == 1) else 1
-            if abs(float(gain[j]) - want) > 1e-9:
+            if not (abs(float(gain[j]) - want) <= 1e-9):
                 rig.violate("column-gain",
                             f"ensemble column {j} gained {float(gain[j])!r} "
                             f"instead of {want}", locks=locks.tolist(),
@@ -418,7 +418,7 @@ class FracMonitor:
         rig.reach("totals")
         if self.idle_steps is not None:
             want = self.idle_steps[: n - 1]
-            if np.max(np.abs(tot - want)) > 1e-9 * max(1, want.max()):
+            if not (np.max(np.abs(tot - want)) <= 1e-9 * max(1, want.max())):
                 rig.violate("totals-mismatch",
                             f"rows+live per ensemble {[float(t) for t in tot]}"
                             f" != idle step counts {want.tolist()}")
